@@ -3,20 +3,23 @@
 # models, bit readers never read past their buffer, the LZW table is bounded (the logic half).
 #        and (Sys/C04GuardProofs.v) the guard logic of the traversals, limits and conversions: termination within an explicit
 #        bound, node visits bounded by the number of nodes, revisits reported, depth limits, no wrapped conversion,
-#        at most two xref reconstructions.  Tie: harness/c04guards.py (random hostile graphs, real qpdf vs extracted model).
+#        at most two xref reconstructions; the qpdf-JSON import boundary (which exception can leave importJSON); Pl_PNGFilter's row buffers.
+#        Tie: harness/c04guards.py (random hostile graphs, real qpdf vs extracted model), harness/c04json.py (hostile qpdf JSON documents).
 # Observed (testing, labelled so): the real qpdf CLI and the in-process drivers built with ASan+UBSan
 # (-fno-sanitize-recover) are fed a malformed stream (mutations of generated documents, repository corpus and
 # fuzz seeds with a PDF token dictionary and structure-aware edits); every run must end in a documented way.
 import os, re, resource, subprocess, time
-import common, filecheck, pdfgen, c04guards
+import common, filecheck, pdfgen, c04guards, c04json
 from common import hexs
 from pdfgen import D, N, Ref
 
 ASSUMPTIONS = [
     "guard theorems (Sys/C04GuardProofs.v) speak about the Gallina models of Sys/Guards.v, over abstract object graphs without a node of id 0; the models are tied to /repo by the random-graph correspondence of this check (CLI outcome category, page / entry / helper / warning counts, driver results), not by a proof about the C++",
-    "guard part: CPU budget 1 s + 0.05 ms per input byte and RSS budget 150 MB + 0.4 kB per byte per qpdf run (plain build, ulimit -v 4 GB, 40 s hard stop); an overrun is re-run alone before it is reported",
+    "guard part: CPU budget 1 s + 0.05 ms per input byte and RSS budget 150 MB + 0.4 kB per byte per qpdf run (plain build, ulimit -v 4 GB; hard stops: CPU 3 x budget + 1 s, 20 MB of output, 40 s wall - a run that reaches one of them is a hang); a budget overrun is re-run alone before it is reported",
+    "qpdf JSON import: the CLI prints every std::exception as `qpdf: <what>` with exit 2, so the TYPE of an exception is observed in process only (harness/drv_guards.cc c4json: createFromJSON / updateFromJSON, then QPDFWriter::write); the model c4_import_json takes what callees throw (JSON syntax errors, QPDFObjectHandle::parse) as given",
+    "read_xref in process: `the offsets read_xref is asked to read` = absolute seeks that are followed by a one-byte read (its white-space skip) or that fail, cut down to the offsets a startxref / /Prev of the generated file can name",
     "memory safety, undefined behaviour, leaks, wall-clock time and memory use of the C++ are NOT expressible in the Gallina models: they are observed only, on the sampled malformed stream, by the sanitizers and budgets (partial, DESIGN §8)",
-    "budgets are loose multiples (20 s + 2 ms per input byte, 4 GB address space outside ASan) so that correct code never trips them; an overrun is re-run alone before it is reported",
+    "budgets are loose multiples (20 s + 2 ms per input byte, 4 GB address space outside ASan) so that correct code never trips them; an overrun is re-run alone before it is reported; when the sanitizer runtime itself runs out of memory (out-of-memory / hard_rss_limit_mb=6000: its operator new cannot fail, its shadow multiplies the footprint) the input is judged by the plain build under the 4 GB address-space limit instead - memory use without the library's protective limits is outside the property",
     "DCT (libjpeg), zlib internals and the C API beyond what the drivers call are outside",
 ]
 
@@ -28,6 +31,7 @@ TOKENS = [b"obj", b"endobj", b"stream", b"endstream", b"xref", b"trailer", b"sta
 
 SAN_RE = re.compile(rb"ERROR: (AddressSanitizer|LeakSanitizer|UndefinedBehaviorSanitizer)|runtime error:|SUMMARY: \w*Sanitizer", re.M)
 INTERNAL_RE = re.compile(rb"INTERNAL ERROR|logic_error|std::logic_error|terminate called|Assertion .* failed|internal error", re.I)
+ASAN_RESOURCE_RE = re.compile(rb"AddressSanitizer: (out-of-memory|allocation-size-too-big|requested allocation size)|hard rss limit exhausted", re.I)
 
 
 def mutate(rng, data):
@@ -123,7 +127,41 @@ def structured(rng):
     d = pdfgen.page_doc(1)
     d.objects[1][b"Y"] = d.add(Stream({b"Type": N("ObjStm"), b"N": 3, b"First": 10, b"Extends": Ref(max(d.objects) + 1)}, b"7 0 8 1 9 2 <<>> 1 2"))
     docs.append(pdfgen.write_classic(d)[0])
+    # named inputs (the name is part of the violation signature).  png-row-wrap: predictor parameters for which a row has
+    # exactly 2^32 - 1 bytes - Pl_PNGFilter allocates its row buffers with the uint32_t sum bytes_per_row + 1 = 0 (D-C04-png-row-wrap)
+    structured.names = {}
+    import zlib
+    d = pdfgen.page_doc(1)
+    d.objects[1][b"X"] = d.add(Stream({b"Filter": N("FlateDecode"), b"DecodeParms": {b"Predictor": 12, b"Columns": 1431655765, b"Colors": 3, b"BitsPerComponent": 8}},
+                                      zlib.compress(bytes(range(64)))))
+    structured.names[len(docs)] = "png-row-wrap"
+    docs.append(pdfgen.write_classic(d)[0])
+    # objstm-negative-first: /First < 0 in an object stream whose members are referenced (resolve() turns the std::logic_error of
+    # is::OffsetBuffer into a warning: must stay a warning, exit 3)
+    docs.append(objstm_doc(-5))
+    structured.names[len(docs) - 1] = "objstm-negative-first"
     return docs
+
+
+def objstm_doc(first, header=b"5 0 6 20 ", members=b"<< /A 1 >>          << /B 2 >>"):
+    """a file (cross-reference stream) whose objects 5 and 6 live in the object stream 4 with the given /First"""
+    pdf = bytearray(b"%PDF-1.5\n%\xbf\xf7\xa2\xfe\n")
+    off = {}
+
+    def obj(num, body):
+        off[num] = len(pdf)
+        pdf.extend(b"%d 0 obj\n" % num + body + b"\nendobj\n")
+    obj(1, b"<< /Type /Catalog /Pages 2 0 R /X 5 0 R /Y 6 0 R >>")
+    obj(2, b"<< /Type /Pages /Kids [3 0 R] /Count 1 >>")
+    obj(3, b"<< /Type /Page /Parent 2 0 R /MediaBox [0 0 10 10] /Resources << >> >>")
+    data = header + members
+    obj(4, b"<< /Type /ObjStm /N 2 /First %d /Length %d >>\nstream\n" % (first, len(data)) + data + b"\nendstream")
+    x = len(pdf)
+    ents = [bytes([0, 0, 0, 255])] + [bytes([1]) + off[i].to_bytes(2, "big") + bytes([0]) for i in (1, 2, 3, 4)]
+    ents += [bytes([2, 0, 4, 0]), bytes([2, 0, 4, 1]), bytes([1]) + x.to_bytes(2, "big") + bytes([0])]
+    d = b"".join(ents)
+    pdf.extend(b"7 0 obj\n<< /Type /XRef /Size 8 /Root 1 0 R /W [1 2 1] /Length %d >>\nstream\n" % len(d) + d + b"\nendstream\nendobj\nstartxref\n%d\n%%%%EOF\n" % x)
+    return bytes(pdf)
 
 
 def classify(rc, out, err, dt, budget):
@@ -143,6 +181,12 @@ def classify(rc, out, err, dt, budget):
 def run(chk):
     rng = chk.rng
     quick = chk.tier == "quick"
+    phases = chk.cov.setdefault("phase_seconds", {})
+    t_phase = [time.time()]
+
+    def phase(name):
+        phases[name] = round(time.time() - t_phase[0], 1)
+        t_phase[0] = time.time()
     wd = common.workdir("C04")
     bdir = common.build_repo("asan")
     qpdf_asan = os.path.join(bdir, "qpdf", "qpdf")
@@ -150,8 +194,11 @@ def run(chk):
     chk.cov["rule"] = ("malformed stream: byte-level and token-dictionary mutations (1-6 per input) of generated documents, repository corpus files "
                        "(<= 60 kB) and the fuzz seed corpus, plus hand-built hostile structures (cycles in /Kids, /Parent, /Prev, name trees, outlines, object "
                        "streams; predictor parameters at the limits) x entry points {--check, rewrite, --qdf, --linearize, --json-output, --json-input, "
-                       "--show-pages, --list-attachments} under ASan+UBSan; non-trivial = input that makes qpdf warn or fail, distinct by input bytes")
-    env = {"ASAN_OPTIONS": "detect_leaks=1:abort_on_error=0:exitcode=99:allocator_may_return_null=1", "UBSAN_OPTIONS": "print_stacktrace=1:halt_on_error=1:exitcode=98"}
+                       "--show-pages, --list-attachments} under ASan+UBSan; non-trivial = input that makes qpdf warn or fail, distinct by input bytes; "
+                       "guard part: random and aimed hostile graphs (page trees, cross-reference sections with white space in front, outlines, AcroForm, number trees) vs the extracted model; "
+                       "JSON part: qpdf JSON documents from abstract entry sequences (vs the extracted model) and from a grammar of the format (property only)")
+    env = {"ASAN_OPTIONS": "detect_leaks=1:abort_on_error=0:exitcode=99:allocator_may_return_null=1:hard_rss_limit_mb=6000", "UBSAN_OPTIONS": "print_stacktrace=1:halt_on_error=1:exitcode=98"}
+    phase("builds")
     seeds = []
     for name, data, doc in filecheck.gen_docs(rng, 4 if quick else 20):
         seeds.append(data)
@@ -174,9 +221,12 @@ def run(chk):
              ["--decode-level=all", "--stream-data=uncompress"], ["--remove-unreferenced-resources=yes", "--pages", ".", "1-z", "--"],
              ["--optimize-images"], ["--externalize-inline-images", "--optimize-images", "--oi-min-area=0"], ["--flatten-annotations=all", "--generate-appearances"]]
     jobs = []
+    name_of = {}
     for i, data in enumerate(inputs):
         p = os.path.join(wd, "in%d.pdf" % i)
         open(p, "wb").write(data)
+        if i in getattr(structured, "names", {}):
+            name_of[p] = structured.names[i]
         nstruct = getattr(structured, "count", 0)
         for m in (modes if i < nstruct else [modes[0]] + rng.sample(modes[1:], 2 if quick else 4)):
             jobs.append((p, m, len(data)))
@@ -195,6 +245,20 @@ def run(chk):
         t = time.time()
         rc, so, se = common.run_qpdf(args, timeout=budget * 3, env=env, exe=qpdf_asan)
         cls = classify(rc, so[-4000:], se[-20000:], time.time() - t, budget * 3)
+        if cls != "ok" and ASAN_RESOURCE_RE.search(se):
+            # the sanitizer runtime gave up on MEMORY (its allocator cannot return null from operator new, its shadow multiplies the
+            # footprint): that is not a memory-safety report.  What the property says about such an input - a documented outcome -
+            # is decided by the plain build under the address-space limit and the same time budget
+            t = time.time()
+            try:
+                q = subprocess.run(["bash", "-c", "ulimit -v 4000000; exec \"$0\" \"$@\"", common.QPDF] + args, stdout=subprocess.PIPE, stderr=subprocess.PIPE,
+                                   timeout=budget * 3)
+                rc, so, se = q.returncode, q.stdout, q.stderr
+            except subprocess.TimeoutExpired:
+                rc, so, se = -999, b"", b"timeout"
+            cls = classify(rc, so[-4000:], se[-20000:], time.time() - t, budget * 3)
+            if cls == "ok":
+                return "ok", "%s-plain-after-asan-memory" % rc, se[-1500:]
         if cls == "ok" and se.count(b"Attempting to reconstruct cross-reference table") > 2:
             cls = "more-than-two-xref-reconstructions"
         return cls, rc, se[-1500:]
@@ -203,7 +267,7 @@ def run(chk):
     nontriv = set()
     for (p, m, n), (cls, rc, se) in zip(jobs, res):
         kinds[cls + "/exit%s" % rc] = kinds.get(cls + "/exit%s" % rc, 0) + 1
-        if rc in (2, 3):
+        if rc in (2, 3) or str(rc).startswith(("2-", "3-")):
             nontriv.add(p)
         if cls != "ok":
             # reproduce alone before reporting (budgets, flaky resource pressure)
@@ -211,11 +275,13 @@ def run(chk):
             if cls2 != "ok":
                 chk.violation({"kind": "property-fails-on-implementation", "why": "qpdf did not end in a documented way: " + cls2, "input": p,
                                "input_hex_prefix": open(p, "rb").read()[:200].hex(), "argv": ["qpdf"] + m, "exit": rc2,
-                               "stderr_tail": se2.decode("latin-1")[-1200:]}, signature="c04:%s:%s" % (cls2, " ".join(m)))
+                               "stderr_tail": se2.decode("latin-1")[-1200:]},
+                              signature="c04:%s:%s" % (cls2, " ".join(m)) + (":" + name_of[p] if p in name_of else ""))
     chk.count("cli-malformed-asan", len(jobs), nontriv, samples=[{"input": os.path.basename(jobs[0][0]), "mode": jobs[0][1]}])
     chk.cov["parts"]["cli-malformed-asan"]["outcome_classes"] = kinds
     chk.cov["parts"]["cli-malformed-asan"]["explanation"] = "testing, not proof: sanitizer verdicts and budgets on a sampled malformed stream"
 
+    phase("cli-malformed-asan")
     # ---- in-process entry points under ASan: filters with malformed data (same cases as C15's malformed part)
     lines = []
     for _ in range(1500 if quick else 40000):
@@ -244,7 +310,9 @@ def run(chk):
     for lim in ([100000, 1000000] if quick else [1000, 100000, 1000000, 5000000]):
         for csize in ([1024, 10240, 65536] if quick else [2, 64, 1024, 10240, 32768, 65536]):
             per = (csize // 2) * 128
-            nch = min(400, int(lim // per) + 12)
+            if int(lim // per) + 12 > 400:
+                continue                  # the limit would not be reached within the 400 writes a case may have
+            nch = int(lim // per) + 12
             llines.append("limit rld %d %d %s" % (lim, nch, (b"\x81\x00" * (csize // 2)).hex()))
             lmeta.append(("rld", lim, csize, per, nch))
     louts = common.run_lines(drv_asan, llines, env=env)
@@ -263,6 +331,7 @@ def run(chk):
         nlim.add((f, lim, csize))
     chk.count("decoder-memory-limits", len(llines), nlim, samples=[{"case": llines[0][:80]}])
 
+    phase("filters-and-limits")
     # ---- linearization parameters of real linearized files replaced, in place and without changing the file length, by values
     # at and beyond the ends of their ranges (negative, zero, 2^31, 2^32, 2^40 ...): --check / --check-linearization /
     # --show-linearization read hint tables at offsets computed from them
@@ -321,14 +390,31 @@ def run(chk):
     chk.count("linearization-parameters-asan", len(ljobs), lnon, samples=[{"input": os.path.basename(ljobs[0][0]), "mode": ljobs[0][1]}] if ljobs else [])
     chk.cov["parts"]["linearization-parameters-asan"]["outcome_classes"] = lk
 
+    phase("linearization-parameters")
     # ---- guard logic: random hostile graphs, real qpdf / driver vs the extracted model of Sys/Guards.v
     diffs, fails = c04guards.run_part(chk, quick)
-    c04guards.report(chk, diffs, fails)
+    phase("guards")
+    # ---- qpdf JSON import: hostile JSON documents through createFromJSON / updateFromJSON (in process, exception type) and the
+    #      CLI, against the extracted model of the reactor's replaceObject guard and of importJSON's exception translation
+    jdiffs, jfails = c04json.run_part(chk, quick, env)
+    phase("json-import")
+    c04guards.report(chk, diffs + jdiffs, fails + jfails)
 
 
 def replay(chk, rep):
     import json
-    print(json.dumps(rep, indent=1)[:3000])
+    print(json.dumps({k: v for k, v in rep.items() if k != "input_hex"}, indent=1)[:3000])
+    if rep.get("input") and rep.get("input_hex") and not os.path.exists(rep["input"]):
+        os.makedirs(os.path.dirname(rep["input"]), exist_ok=True)
+        with open(rep["input"], "wb") as f:
+            f.write(bytes.fromhex(rep["input_hex"]))
+    # a recorded JSON import case: the same text through createFromJSON / updateFromJSON in process (exception type) once more
+    if rep.get("case_kind") == "json" and rep.get("input") and os.path.exists(rep["input"]) and rep["input"].endswith(".json"):
+        mode = "u" if ("mode u" in (rep.get("why") or "") or "--update-from-json" in " ".join(rep.get("argv") or [])) else "c"
+        line = "c4json %s %s%s" % (mode, open(rep["input"], "rb").read().hex() or "-", " " + c04json.base_pdf().hex() if mode == "u" else "")
+        print("replayed (%s): %s" % ("updateFromJSON on the two-page base document" if mode == "u" else "createFromJSON",
+                                     c04guards._drv(common.build_drv(), [line], 60)))
+        return 0
     # a recorded guard-part case: run the same command again on the recorded input, with the same caps
     if rep.get("part") == "guards" and rep.get("input") and rep.get("argv") and os.path.exists(rep["input"]):
         rc, so, se, cpu, rss, wall = c04guards.run_qpdf_capped(common.QPDF, rep["argv"][1:], rep["input"])
